@@ -1,19 +1,77 @@
-(* C07 — Decoders and parsers are total and resource-bounded on arbitrary input.  Theorems only. *)
-From QV Require Import Wire Value GenDec Cost ParseOpt SigParse SigParseProofs WireRefute.
+(* C07 — Decoders and parsers are total and resource-bounded on arbitrary input.  Theorems only;
+   proofs in theories/TotalProofs.v, CostProofs.v, SigParseProofs.v. *)
+From QV Require Import Reader Message Wire Value GenDec Cost CostProofs TotalProofs ParseOpt SigParse SigParseProofs WireRefute WireTop.
 Local Open Scope N_scope.
 
-(* the signature parser is total: every string is accepted or rejected, never stuck *)
+(* ---- totality on ARBITRARY bytes: a value or an error, never a panic, never stuck ---- *)
+Theorem C07_message_total : forall s, read_msg s <> None.
+Proof. exact read_msg_total. Qed.
+Print Assumptions C07_message_total.
+Theorem C07_value_total : forall c bs, new_value parse_opt c bs <> RFuel /\ new_value parse_opt c bs <> RPanic.
+Proof. intros c bs. split; [apply new_value_total|apply new_value_no_panic]. Qed.
+Print Assumptions C07_value_total.
+Theorem C07_sig_read_total : forall c t bs,
+  sig_read parse_opt c (S (List.length bs)) t bs <> RFuel /\ sig_read parse_opt c (S (List.length bs)) t bs <> RPanic.
+Proof. intros c t bs. split; [apply sig_read_total|apply sig_read_no_panic]. Qed.
+Print Assumptions C07_sig_read_total.
+Theorem C07_refl_dec_total : forall c t bs, refl_neg_len_panics c = false ->
+  refl_dec c tval_eqb t bs <> RFuel /\ refl_dec c tval_eqb t bs <> RPanic.
+Proof. intros c t bs H. split; [apply refl_dec_total|now apply refl_dec_no_panic]. Qed.
+Print Assumptions C07_refl_dec_total.
+Theorem C07_generated_total : forall t bs, plain_m t = true ->
+  gen_dec parse_opt t bs <> RFuel /\ gen_dec parse_opt t bs <> RPanic.
+Proof. intros t bs H. split; [now apply gen_dec_total|apply gen_dec_no_panic]. Qed.
+Print Assumptions C07_generated_total.
+Theorem C07_capmap_total : forall c bs, dec_capmap parse_opt c bs <> RFuel /\ dec_capmap parse_opt c bs <> RPanic.
+Proof. intros c bs. split; [apply dec_capmap_total|apply dec_capmap_no_panic]. Qed.
+Print Assumptions C07_capmap_total.
 Theorem C07_parse_total : forall s, parse s <> PFuel.
 Proof. exact parse_total. Qed.
 Print Assumptions C07_parse_total.
 
-(* ... but not resource-bounded on the pinned grammar (finding parse_exponential):
-   n nested parentheses cost at least 2^n parser invocations *)
+(* ---- resources of the typed decoders (instrumented model), any input, any budget ---- *)
+(* reflection decoder: allocation linear in the input; what is not paid for by input read is
+   bounded by the documented limits (one failed string, 4096-element containers) *)
+Theorem C07_alloc_refl : forall neg t bs budget,
+  alloc (snd (cdec PRefl neg t bs budget)) <= len bs + MaxStringSize + (len bs / 4 + 1) * (listValueMaxSize * max_esz t).
+Proof. exact cdec_alloc_refl. Qed.
+Print Assumptions C07_alloc_refl.
+Theorem C07_alloc_sig : forall neg t bs budget, alloc (snd (cdec PSig neg t bs budget)) <= len bs + MaxStringSize.
+Proof. exact cdec_alloc_sig. Qed.
+Print Assumptions C07_alloc_sig.
+(* iterations: linear in the input for every policy when no container has zero-width elements,
+   and then a budget above the input length is never what stops the decoder *)
+Theorem C07_iters : forall pol neg t bs budget, wfz t = true -> iters (snd (cdec pol neg t bs budget)) <= len bs.
+Proof. exact cdec_iters_wfz. Qed.
+Print Assumptions C07_iters.
+Theorem C07_budget_enough : forall pol neg t bs budget, wfz t = true -> len bs < budget -> fst (cdec pol neg t bs budget) <> CBudget.
+Proof. exact cdec_budget_enough. Qed.
+Print Assumptions C07_budget_enough.
+Theorem C07_iters_refl : forall neg t bs budget,
+  iters (snd (cdec PRefl neg t bs budget)) <= (len bs / 4 + 1) * listValueMaxSize + len bs.
+Proof. exact cdec_iters_refl. Qed.
+Print Assumptions C07_iters_refl.
+Theorem C07_no_panic : forall pol t bs budget, fst (cdec pol false t bs budget) <> CPanic.
+Proof. exact cdec_no_panic. Qed.
+Print Assumptions C07_no_panic.
+
+(* ---- refutations: the three findings of the pinned code, and the repaired panic ---- *)
+(* generated decoders allocate from the wire count: 4 bytes of input, unbounded allocation *)
+Theorem C07_refuted_gen_alloc : forall k, exists t bs, len bs = 4 /\ k <= alloc (snd (cdec PGen false t bs 1000)).
+Proof. exact cdec_gen_alloc_unbounded. Qed.
+Print Assumptions C07_refuted_gen_alloc.
+(* the signature reader loops count times over elements that read nothing *)
+Theorem C07_refuted_sig_spin : fst (cdec PSig false (TList (TS SVoid)) [xff; xff; xff; xff] 1000000) = CBudget.
+Proof. exact cdec_sig_spin_refuted. Qed.
+Print Assumptions C07_refuted_sig_spin.
+(* the signature grammar: n nested parentheses cost at least 2^n parser invocations *)
 Theorem C07_refuted_parse_exponential : forall n, 2 ^ N.of_nat n <= parse_steps (nest n).
 Proof. exact nest_steps_exponential. Qed.
 Print Assumptions C07_refuted_parse_exponential.
-
-(* the pinned reflection decoder panics on a negative list length (switch refl_neg_len_panics; repaired) *)
+(* the pinned reflection decoder panicked on a negative list length (repaired: 7100291) *)
 Theorem C07_refuted_neg_len : refl_dec only_neg_len tval_eqb (TList (TS SI32)) [xff; xff; xff; xff] = RPanic.
 Proof. exact refl_neg_len_refuted. Qed.
 Print Assumptions C07_refuted_neg_len.
+
+Example C07_nonvacuous : wfz WireTop.ex_ty = true /\ plain_m ty_MetaObject = true.
+Proof. split; vm_compute; reflexivity. Qed.
